@@ -127,10 +127,12 @@ def generator_reset_complete(rep, prog, ignore=()):
         if id(fn) in seen:
             continue
         seen.add(id(fn))
+        in_pimpl = fn.get('cls') == GEN + '::pimpl_type'
         for name, line in typestate.member_writes(fn).items():
-            written.setdefault(name, line)
+            # a method of the private implementation writes its own fields: they are the generator's `_pimpl_.<field>`
+            written.setdefault(('_pimpl_.' + name) if in_pimpl and not name.startswith('_pimpl_') else name, line)
         for c in astu.calls(fn['body']):
-            if c['callee'].get('cls') == GEN:
+            if c['callee'].get('cls') in (GEN, GEN + '::pimpl_type'):
                 st_.extend(prog.fns(c['callee']['qn']))
     for f in rec['fields']:
         if f['name'] in ('_pimpl_',) or f['name'] in ignore:
